@@ -5,7 +5,7 @@ into an imported module); the rewritten program must still be accepted and emit 
 document up to the names of implicit components."""
 import copy
 import json
-from . import core, progs, gen, canon
+from . import core, progs, gen, canon, evaltie
 
 MAIN = "file:///w/main.oal"
 EVAL_KEYS = {"minimum", "maximum", "multipleOf", "example", "pattern", "enum", "format", "minLength", "maxLength",
@@ -411,6 +411,8 @@ def check(ctx):
         return core.finish(ctx)
     n = 1500 if ctx.thorough else 300
     ps = progs.gen_programs(ctx, n)
+    # the evaluator tie (C05_alpha_evaluation is a theorem about Model/Eval.v)
+    evaltie.run(ctx, ps[: (600 if ctx.thorough else 120)] + evaltie.repo_corpus())
     base = progs.compile_many(ps)
     jobs = []
     for p, r in zip(ps, base):
